@@ -340,9 +340,33 @@ def s3(prog, rep):
                     if first is None:
                         t = f.blocks[t.succs[0]] if len(t.succs) == 1 and t.succs[0] is not None else None
                 ok = err is not None and first is not None and first.is_assign and first.op == "=" and norm(first.kid(0))[0] == "v" and norm(first.kid(0))[1] == "state" and norm(first.kid(1)) == err
+                # ... and stays rejected: until the state is next tested against E, nothing stores another state over it
+                over = None
+                if ok:
+                    seen, work = set(), [(first.block.id, first.i + 1)]
+                    while work and over is None:
+                        nb, start = work.pop()
+                        if (nb, start) in seen:
+                            continue
+                        seen.add((nb, start))
+                        blk = f.blocks[nb]
+                        for e in blk.elems[start:]:
+                            if e.is_assign and norm(e.kid(0))[0] == "v" and norm(e.kid(0))[1] == "state" and not (e.op == "=" and norm(e.kid(1)) == err):
+                                over = e
+                                break
+                        if over is not None:
+                            break
+                        if blk.cond is not None and any(L[0] == "v" and L[1] == "state" and R == err for op, L, R, _, _ in cond_atoms(blk.cond, True)):
+                            continue
+                        if any(e.cls == "ReturnStmt" for e in blk.elems):
+                            continue
+                        work.extend((x, 0) for x in blk.succs if x is not None)
+                    if over is not None:
+                        ok = False
                 rep.check(ok, "S3-arith", "overflow at `%s` rejects the string" % b.cond.text[:40], b.cond.where,
                           "on the edge where the value no longer fits, the first effect must be state = %s (the state the function answers -1 for); found `%s`"
-                          % (show(err) if err else "?", first.text[:40] if first is not None else "nothing"), function=f.name, construct="overflow-rejects")
+                          % (show(err) if err else "?", (first.text[:40] if first is not None else "nothing") + ((", overwritten by `%s` at line %d before the state is tested" % (over.text[:30], over.line)) if over is not None else "")),
+                          function=f.name, construct="overflow-rejects")
                 break
     if m < 3:
         rep.defer_broken("S3: fewer than 3 overflow tests on *size")
